@@ -80,7 +80,7 @@ fn spec_letter(p: Piece) -> u8 {
     }
 }
 
-fn any_piece_opt() -> Option<Piece> {
+pub fn any_piece_opt() -> Option<Piece> {
     use crate::chess::piece::PieceKind::*;
     let k: u8 = kani::any();
     kani::assume(k < 13);
@@ -206,7 +206,7 @@ fn any_game() -> g::Game {
     }
 }
 
-fn any_fields_game() -> g::Game {
+pub fn any_fields_game() -> g::Game {
     g::Game {
         player: geo::any_player(),
         board: g::Board { sq: [None; 64] },
